@@ -156,6 +156,22 @@ def laws(ctx, kp, letter, alt, octave):
                     ctx.violation('p4-p5', f'object API with re-used pitch objects: {src} {d} P4 then P5 = {ex_.export_pitch(m2)!r} '
                                   f'(expected {exp!r}); octave and back = {ex_.export_pitch(back)!r} (expected {src!r})',
                                   {'pitch': src, 'direction': d})
+            # a pitch object is what its fields say NOW: after the caller moved it through the public setters (octave, then name) a
+            # transposition starts from the new pitch, not from anything remembered about the old one
+            ctx.mon('pitch_object_reassigned_cases')
+            pobj.octave = octave + 2
+            r2 = kp.transpose_agnostics(pobj, kp.IntervalsByName['octave'], d)
+            exp2 = I.spell(letter, alt, octave + 2 + (1 if d0 == 'up' else -1))
+            u2 = kp.transpose_agnostics(pobj, kp.IntervalsByName['P1'], d)
+            new_letter = I.LETTERS[(I.LETTERS.index(letter) + 3) % 7]
+            pobj.name = new_letter + pobj.name[1:]
+            r3 = kp.transpose_agnostics(pobj, kp.IntervalsByName['octave'], d)
+            exp3 = I.spell(new_letter, alt, octave + 2 + (1 if d0 == 'up' else -1))
+            got2, gotu, got3 = ex_.export_pitch(r2), ex_.export_pitch(u2), ex_.export_pitch(r3)
+            if got2 != exp2 or gotu != I.spell(letter, alt, octave + 2) or got3 != exp3:
+                ctx.violation('reassigned-pitch-object', f'pitch object of {src} after octave := {octave + 2}: octave {d} = {got2!r} (expected '
+                              f'{exp2!r}), unison = {gotu!r}; after name := {new_letter}...: octave {d} = {got3!r} (expected {exp3!r})',
+                              {'pitch': src, 'direction': d})
         except Exception as ex:  # noqa
             ctx.violation('raises-on-spellable', f'object API on {src} ({d}): {type(ex).__name__}: {ex}', {'pitch': src, 'direction': d})
 
